@@ -414,6 +414,16 @@ func (mr *msgReader) Read(p []byte) (n int, err error) {
 		mr.dict.write(p)
 	}
 	if errors.Is(err, io.EOF) || errors.Is(err, io.ErrUnexpectedEOF) && mr.flate {
+		if mr.flate && (err == io.EOF || err == io.ErrUnexpectedEOF) {
+			// The inflater itself reported the end (transport errors arrive wrapped).
+			// The DEFLATE stream may end before the message does: a sender may finish
+			// it with a BFINAL block followed by a 0x00 byte (RFC 7692 section 7.2.3.4).
+			// Discard the rest of the message so that the next one starts clean.
+			_, derr := io.Copy(io.Discard, mr.flateBufio)
+			if derr != nil {
+				return n, fmt.Errorf("failed to read: %w", derr)
+			}
+		}
 		// The message ended only if its final frame has been received in full.
 		// Otherwise the EOF is the transport's (errors are wrapped with %w and
 		// so still match io.EOF / io.ErrUnexpectedEOF): the message is truncated.
